@@ -227,9 +227,15 @@ def run_trn(sc, s, res, data):
     prime(s, path, text, lambda p: data.read_trn(p, warn=False), res)
     with open(path, "w") as f:
         f.write(text)
-    serial = data.read_trn(path, warn=False)
-    with open(path) as f:
-        via_file = data.read_trn(f, warn=False)
+    try:
+        serial = data.read_trn(path, warn=False)
+        with open(path) as f:
+            via_file = data.read_trn(f, warn=False)
+    except HarnessError:
+        raise
+    except Exception as e:  # noqa
+        res.violate("trn.read-raised", f"read_trn of a file written by write_trn raised {type(e).__name__}: {e}", fmt="trn")
+        return
     if serial != via_file:
         res.violate("stream.read-differs", "read_trn(path) != read_trn(open file)", fmt="trn")
         return
@@ -275,7 +281,12 @@ def run_trn(sc, s, res, data):
 
 
 def run_ctm(sc, s, res, data):
-    lib = [(u["id"], [(tok, a / 1000.0, b / 1000.0) for tok, a, b in u["toks"]]) for u in sc["utts"]]
+    # a quarter of the scenarios count in samples of a 16 kHz recording instead of milliseconds: times below
+    # 1e-4 s, which Python prints in exponent notation (derived from the scenario: older ones keep their derivation)
+    unit = 16000.0 if (len(sc["utts"]) + sum(len(u["toks"]) for u in sc["utts"])) % 4 == 0 else 1000.0
+    if unit != 1000.0:
+        res.bump("probe.ctm_sample_level_times")
+    lib = [(u["id"], [(tok, a / unit, b / unit) for tok, a, b in u["toks"]]) for u in sc["utts"]]
     if sc["mapping"] == "dict":
         utt2wc = {u["id"]: (u["wfn"], u["chan"]) for u in sc["utts"]}
         wc2utt = {v: k for k, v in utt2wc.items()}
@@ -302,9 +313,15 @@ def run_ctm(sc, s, res, data):
     prime(s, path, text, lambda p: data.read_ctm(p, wc2utt), res)
     with open(path, "w") as f:
         f.write(";; comment\n" + text.replace("\n", "  ;; trailing\n", 1))
-    got = data.read_ctm(path, wc2utt)
-    with open(path) as f:
-        got_f = data.read_ctm(f, wc2utt)
+    try:
+        got = data.read_ctm(path, wc2utt)
+        with open(path) as f:
+            got_f = data.read_ctm(f, wc2utt)
+    except HarnessError:
+        raise
+    except Exception as e:  # noqa
+        res.violate("ctm.read-raised", f"read_ctm of a file written by write_ctm raised {type(e).__name__}: {e}", fmt="ctm")
+        return
     if got != got_f:
         res.violate("stream.read-differs", "read_ctm(path) != read_ctm(open file)", fmt="ctm")
         return
